@@ -444,5 +444,145 @@ def _main(jobpath):
     os._exit(0)
 
 
+def _server(preload):
+    """fork server ("zygote"): import the heavy modules once, then fork one child per job path read from stdin.
+    Only modules whose import starts no computation may be preloaded (jax yes, nifty.re no: it initialises the XLA backend)."""
+    import importlib
+    here = os.path.dirname(os.path.abspath(__file__))
+    harness = os.path.dirname(here)
+    for p in (os.environ.get("NIFTY_REPO", "/repo"), os.path.dirname(harness), harness):
+        if p not in sys.path:
+            sys.path.insert(0, p)
+    for m in preload:
+        try:
+            importlib.import_module(m)
+        except Exception:
+            pass
+    sys.stdout.write("ready\n")
+    sys.stdout.flush()
+    while True:
+        line = sys.stdin.readline()
+        if not line:
+            break
+        jobpath = line.strip()
+        if not jobpath:
+            continue
+        pid = os.fork()
+        if pid == 0:
+            try:
+                job = json.load(open(jobpath))
+                fd = os.open(job["log"] + ".stderr", os.O_WRONLY | os.O_CREAT | os.O_TRUNC, 0o644)
+                os.dup2(fd, 1)
+                os.dup2(fd, 2)
+                _main(jobpath)
+            finally:
+                os._exit(99)
+        _, status = os.waitpid(pid, 0)
+        sys.stdout.write(f"{os.waitstatus_to_exitcode(status)}\n")
+        sys.stdout.flush()
+
+
+class Zygote:
+    """harness side of one fork server"""
+
+    def __init__(self, preload=(), env=None, python=None):
+        import subprocess
+        e = dict(os.environ)
+        e.setdefault("JAX_PLATFORMS", "cpu")
+        e.update(OMP_NUM_THREADS="1", OPENBLAS_NUM_THREADS="1", MKL_NUM_THREADS="1", MPLBACKEND="Agg",
+                 XLA_FLAGS="--xla_cpu_multi_thread_eigen=false intra_op_parallelism_threads=1")
+        if env:
+            e.update(env)
+        self.p = subprocess.Popen([python or sys.executable, os.path.abspath(__file__), "--server", ",".join(preload)],
+                                  stdin=subprocess.PIPE, stdout=subprocess.PIPE, stderr=subprocess.DEVNULL, text=True,
+                                  env=e, start_new_session=True)
+        self._readline(300)
+
+    def _readline(self, timeout):
+        import select
+        r, _, _ = select.select([self.p.stdout], [], [], timeout)
+        if not r:
+            raise TimeoutError
+        line = self.p.stdout.readline()
+        if not line:
+            raise EOFError
+        return line.strip()
+
+    def run(self, job, timeout=600):
+        import tempfile
+        with tempfile.NamedTemporaryFile("w", suffix=".json", prefix="crashjob_", delete=False) as f:
+            json.dump(job, f)
+            jp = f.name
+        try:
+            self.p.stdin.write(jp + "\n")
+            self.p.stdin.flush()
+            rc = int(self._readline(timeout))
+        finally:
+            try:
+                os.unlink(jp)
+            except OSError:
+                pass
+        err = ""
+        ep = job["log"] + ".stderr"
+        if os.path.exists(ep):
+            with open(ep, errors="replace") as f:
+                err = f.read()[-1500:]
+        return rc, err
+
+    def close(self):
+        import signal
+        try:
+            os.killpg(self.p.pid, signal.SIGKILL)
+        except Exception:
+            pass
+        try:
+            self.p.wait(5)
+        except Exception:
+            pass
+
+
+class Pool:
+    """N fork servers behind a thread pool: pool.map(fn, items) runs fn(zygote_run, item) concurrently"""
+
+    def __init__(self, n, preload=(), env=None):
+        import queue
+        self.n, self.preload, self.env = n, tuple(preload), env
+        self.free = queue.Queue()
+        self.all = []
+
+    def run(self, job, timeout=600, retries=1):
+        import queue
+        for attempt in range(retries + 1):
+            try:
+                z = self.free.get_nowait()
+            except queue.Empty:
+                try:
+                    z = Zygote(self.preload, self.env)
+                except (TimeoutError, EOFError, OSError):
+                    continue
+                self.all.append(z)
+            try:
+                rc, err = z.run(job, timeout)
+            except (TimeoutError, EOFError, ValueError, BrokenPipeError, OSError) as e:
+                z.close()
+                err = f"zygote failure: {type(e).__name__}"
+                continue
+            self.free.put(z)
+            return rc, err
+        return -9, err if "err" in dir() else "zygote failure"
+
+    def map(self, fn, items):
+        from concurrent.futures import ThreadPoolExecutor
+        with ThreadPoolExecutor(self.n) as ex:
+            return list(ex.map(fn, items))
+
+    def close(self):
+        for z in self.all:
+            z.close()
+
+
 if __name__ == "__main__":
-    _main(sys.argv[1])
+    if sys.argv[1] == "--server":
+        _server([m for m in (sys.argv[2] if len(sys.argv) > 2 else "").split(",") if m])
+    else:
+        _main(sys.argv[1])
